@@ -46,6 +46,8 @@ FIELDS = {
     "selfsub": ["t: int = 0"],
     # a nested *plain* dataclass (no mixin) that opted in to dialect support itself
     "plainnested": ["a: bytes", "pn: Optional[PN] = None", "pl: List[PN] = field(default_factory=list)"],
+    # a nested class with a class-level discriminator: the variants' units are built at run time, on the first lookup miss
+    "discriminated": ["d: DBase", "dl: List[DBase] = field(default_factory=list)"],
     # a nested plain dataclass with a field typed with its own SUBCLASS (not a self-reference: the subclass needs its own units)
     "plainsub": ["root: PNode", "t: int = 0"],
     # a specialised generic mixin class nested in C (units keyed by a hash of the type arguments)
@@ -65,6 +67,8 @@ class FPoint:
 
     def label(self):
         tag = "{generic+D}" if (self.fields == "generic" and self.dialect_support) else ""
+        if self.fields == "discriminated" and self.mixin != "dict":
+            tag = "{subclass-instance}"  # the holder's field is typed with the base, the value is an instance of a subclass (format units are built per declared type)
         return f"[{self.mixin}/{self.mode}/{self.fields}{'/D' if self.dialect_support else ''}{'/nested' if self.nested else ''}{'/call=' + self.call_dialect if self.call_dialect != 'none' else ''}{'/cfgD' if self.cfg_dialect else ''}]{tag}"
 
 
@@ -97,6 +101,10 @@ def class_source(p: FPoint):
         src += ["@dataclass", "class PN:", "    z: bytes = b''", "    w: Optional[datetime.date] = None"]
         if cfg:
             src += ["    class Config(BaseConfig):"] + ["        " + c for c in cfg]
+    if p.fields == "discriminated":
+        src += ["from mashumaro.types import Discriminator", "@dataclass", f"class DBase({mixname}):", "    class Config(BaseConfig):",
+                "        discriminator = Discriminator(field='kind', include_subtypes=True)"] + ["        " + c for c in cfg]
+        src += ["@dataclass", "class DSub(DBase):", "    kind: str = 'sub'", "    z: bytes = b''", "    w: Optional[datetime.date] = None"]
     if p.fields == "plainsub":
         src += ["@dataclass", "class PNode:", "    a: bytes = b''", "    sub: Optional['PLeaf'] = None"]
         if cfg:
@@ -139,6 +147,8 @@ def sample_instance(mod, p: FPoint):
         kw["n"] = mod.Later(b"z", None)
     if p.fields == "plainnested":
         kw = dict(a=b"ab", pn=mod.PN(b"z", datetime.date(2020, 1, 2)), pl=[mod.PN(b"y", None)])
+    if p.fields == "discriminated":
+        kw = dict(d=mod.DSub("sub", b"z", datetime.date(2020, 1, 2)), dl=[mod.DSub("sub", b"y", None)])
     if p.fields == "plainsub":
         kw = dict(root=mod.PNode(b"ab", mod.PLeaf(b"cd", None, 5)), t=1)
     if p.fields == "generic":
@@ -361,6 +371,39 @@ def stub_obligations(record, cls):
 # ---------------------------------------------------------------------------------------------
 # effective dialect -> reference
 # ---------------------------------------------------------------------------------------------
+def variant_build_problems(record):
+    """discriminator helpers build a variant's unit at run time (`CodeBuilder(variant, dialect=.., ..).add_unpack_method()`) and then
+    reach it as the attribute `<variant>.<method>(value, flags)`: the unit built must therefore be the variant's default unit (dialect
+    None - a build for a call dialect only fills the variant's dialect cache and leaves the attribute missing or inherited)."""
+    b = record.builder
+    if b is None:
+        return []
+    try:
+        mod = ast.parse(record.text)
+    except SyntaxError:
+        return []
+    problems = []
+    for fn in [n for n in mod.body if isinstance(n, ast.FunctionDef) and n.name.startswith("__unpack_")]:
+        reads_cache = any(isinstance(n, ast.Subscript) and isinstance(n.value, ast.Attribute) and n.value.attr.startswith("__dialect_") for n in ast.walk(fn))
+        for c in ast.walk(fn):
+            if not (isinstance(c, ast.Call) and isinstance(c.func, ast.Name) and c.func.id == "CodeBuilder" and c.args and isinstance(c.args[0], ast.Name) and c.args[0].id == "variant"):
+                continue
+            kw = {k.arg: k.value for k in c.keywords}
+            if "attrs" in kw:
+                continue  # codec path: the unit is stored in the holder registry, codec builders carry no call dialect
+            dv = kw.get("dialect")
+            if isinstance(dv, ast.Constant) and dv.value is None:
+                continue
+            if isinstance(dv, ast.Name) and dv.id == "_dialect":
+                actual = b.dialect
+            else:
+                actual = "?"
+            if actual is not None and not reads_cache:
+                problems.append(f"{fn.name}: in the unit compiled for call dialect {getattr(actual, '__name__', actual)} a variant without its own unit is built with dialect={ast.unparse(dv) if dv is not None else None} "
+                                f"(only its dialect cache is filled) and then reached as an attribute: AttributeError, or an ancestor's unit")
+    return problems
+
+
 def _has_dialect_support(c):
     from mashumaro.config import ADD_DIALECT_SUPPORT
 
@@ -531,7 +574,7 @@ def g7_task(payload):
             obs.append(dict(id=f"{pid}.H7{label}/dialect_first", status="proved" if not hist else "refuted", unit="history: dialect call before any default call, fresh family (bounded)", bounded=True,
                             detail="; ".join(hist)[:700], witness=({"confirmed": True, "source": src, "input": "first call of each entry point with dialect=CallD on freshly defined classes", "why": hist[0]} if hist else None)))
         recs = [r for r in rec.records if r.seq >= recs0[0].seq] if recs0 else []
-        mine = [r for r in recs if r.builder is not None and r.builder.cls in (cls, getattr(mod, "Later", None), getattr(mod, "GBox", None), getattr(mod, "PN", None), getattr(mod, "PNode", None), getattr(mod, "PLeaf", None))]
+        mine = [r for r in recs if r.builder is not None and r.builder.cls in (cls, getattr(mod, "Later", None), getattr(mod, "GBox", None), getattr(mod, "PN", None), getattr(mod, "PNode", None), getattr(mod, "PLeaf", None), getattr(mod, "DBase", None), getattr(mod, "DSub", None))]
         # ---- params
         decl = {}
         probs = []
@@ -561,6 +604,36 @@ def g7_task(payload):
                 if not has_coder and coder is not None:
                     probs.append(f"{n.name}: a dict-form unit compiled with a coder")
         obs.append(dict(id=f"{pid}.G7{label}/params", status="proved" if not probs else "refuted", unit=f"{nunits} units", detail="; ".join(sorted(set(probs)))[:700]))
+        # ---- every encoder call of a format unit (default branch, dialect cache hit, dialect cache miss) passes the declared
+        #      encoder keyword arguments, each bound to its own method parameter
+        eprobs, ncalls_enc = [], 0
+        for r in mine:
+            b = r.builder
+            for n in ast.parse(r.text).body:
+                if not (isinstance(n, ast.FunctionDef) and unit_identity(n.name) and unit_identity(n.name)[0] == "to" and unit_identity(n.name)[2]):
+                    continue
+                want = {enc_param: flag for enc_param, (flag, _v) in (b._get_encoder_kwargs() or {}).items()}
+                for c in ast.walk(n):
+                    if isinstance(c, ast.Call) and isinstance(c.func, ast.Name) and c.func.id == "encoder":
+                        ncalls_enc += 1
+                        got = {k.arg: (k.value.id if isinstance(k.value, ast.Name) else ast.unparse(k.value)) for k in c.keywords}
+                        if got != want:
+                            eprobs.append(f"{n.name} of {b.cls.__name__}: {ast.unparse(c)[:120]} passes {got or 'no keyword'}, the mixin declares {want or 'none'}")
+        if ncalls_enc:
+            ew = None
+            if eprobs and p.mixin == "orjson":
+                try:
+                    import orjson as _oj
+
+                    kw = {"dialect": mod.CallD} if p.dialect_support else {}
+                    out = inst.to_jsonb(orjson_options=_oj.OPT_INDENT_2, **kw)
+                    if b"\n" not in out:
+                        ew = {"confirmed": True, "source": src, "input": f"to_jsonb(orjson_options=orjson.OPT_INDENT_2{', dialect=CallD' if kw else ''})", "got": repr(out)[:200],
+                              "why": "the document is not indented: orjson_options did not reach the encoder"}
+                except Exception as e:  # noqa
+                    ew = {"confirmed": True, "source": src, "why": f"to_jsonb(orjson_options=...) raised {type(e).__name__}: {e}"[:200]}
+            obs.append(dict(id=f"{pid}.G7{label}/encoder_calls", status="proved" if not eprobs else "refuted", unit=f"{ncalls_enc} encoder calls in the format units",
+                            detail="; ".join(sorted(set(eprobs)))[:700], witness=ew))
         # ---- stubs / dispatchers / slots
         probs, ncalls = [], 0
         for r in mine:
@@ -569,14 +642,35 @@ def g7_task(payload):
             ncalls += nc
             probs += units.slot_obligations(r)
             probs += units.owned_call_problems(r)
+            probs += variant_build_problems(r)
         ta_probs = [x for x in probs if "rebuilt with type arguments" in x]
         probs = [x for x in probs if "rebuilt with type arguments" not in x]
         obs.append(dict(id=f"{pid}.G7{label}/stub_type_args", status="proved" if not ta_probs else "refuted", unit=f"{ncalls} embedded rebuild calls in {len(mine)} texts",
                         detail="; ".join(sorted(set(ta_probs)))[:900],
                         witness=({"confirmed": bool(first), "source": src, "why": (first[0] if first else sorted(set(ta_probs))[0])} if ta_probs else None)))
+        stub_w = ({"confirmed": bool(first), "source": src, "why": (first[0] if first else sorted(set(probs))[0])} if probs else None)
+        if probs and p.fields == "discriminated" and p.dialect_support and any("variant without its own unit" in x for x in probs):
+            # replay: on a fresh family the very first decode of the discriminated base carries the dialect
+            mod3 = None
+            try:
+                mod3, _ = build.build_module(src)
+                to_m, from_m = entry_points(p)[-1]
+                sub = mod3.DSub("sub", b"z", None)
+                doc = getattr(sub, to_m)(dialect=mod3.CallD)
+                try:
+                    back = getattr(mod3.DBase, from_m)(doc, dialect=mod3.CallD)
+                    bad = None if back == sub else f"returned {back!r}"
+                except Exception as e:  # noqa
+                    bad = f"raised {type(e).__name__}: {str(e)[:160]}"
+                if bad:
+                    stub_w = {"confirmed": True, "source": src, "input": f"DBase.{from_m}(DSub('sub', b'z', None).{to_m}(dialect=CallD), dialect=CallD) as the first call on freshly defined classes", "why": bad}
+            except Exception:  # noqa
+                pass
+            finally:
+                if mod3 is not None:
+                    build.drop_module(mod3)
         obs.append(dict(id=f"{pid}.G7{label}/stubs", status="proved" if not probs else "refuted", unit=f"{ncalls} embedded rebuild calls in {len(mine)} texts",
-                        detail="; ".join(sorted(set(probs)))[:900],
-                        witness=({"confirmed": bool(first), "source": src, "why": (first[0] if first else sorted(set(probs))[0])} if probs else None)))
+                        detail="; ".join(sorted(set(probs)))[:900], witness=stub_w))
         # ---- semantic: final units against the reference of their effective dialect
         final = {}
         gbox = getattr(mod, "GBox", None)
@@ -753,6 +847,7 @@ def lattice(tier):
                     if not ds:
                         pts.append(FPoint(mixin, mode, ds, "selfsub", False, "none"))
                     pts.append(FPoint(mixin, mode, ds, "generic", False, "strategy" if ds else "none"))
+                    pts.append(FPoint(mixin, mode, ds, "discriminated", False, "strategy" if ds else "none"))
                     if mixin in ("dict", "msgpack"):
                         pts.append(FPoint(mixin, mode, ds, "plainnested", False, "strategy" if ds else "none"))
                         pts.append(FPoint(mixin, mode, ds, "plainsub", False, "strategy" if ds else "none"))
